@@ -172,7 +172,7 @@ func checkC01(c *Check) {
 
 	// ---- R6 records written back after a settlement were loaded after it
 	mut := mutatingFuncs(l, kfuncs)
-	for _, name := range []string{"PaymentCreate", "PaymentWithdraw", "PaymentClose", "AccountClose"} {
+	for _, name := range settlingEntryPoints(l, kfuncs, settle) {
 		fn := l.Func("x/escrow/keeper", "keeper", name)
 		scs := settleCallsIn(l, fn, settle)
 		c.Ob("R6", name+": settles", fn.Pos(), len(scs) > 0, "no settlement before acting")
